@@ -83,4 +83,8 @@ Rec == [inp |-> inp, status |-> s.status,
         toks |-> [i \in 1..Len(s.out) |-> [ty |-> s.out[i].ty, val |-> s.out[i].val,
                                             line |-> s.out[i].line]]]
 ExportRuns == (Export /\ (fin \/ s.status # "run")) => PrintT("@@LEX@@" \o ToJson(Rec))
+
+\* the layout / spelling alphabet itself, for the harness of C14 (printed once)
+ExportChunks == (Export /\ k = 0 /\ ~fin) =>
+                   \A ch \in Chunks : PrintT("@@CHUNK@@" \o ToJson(ch))
 =============================================================================
